@@ -22,7 +22,7 @@ namespace nmtools::view
      * @tparam weight_t 
      * @tparam bias_t 
      * @tparam epsilon_t 
-     * @param input     input array with shape (N,C,H,W)
+     * @param input     input array with shape (N,C,*): (N,C), (N,C,L), (N,C,H,W), ...; channel axis is 1
      * @param mean      (estimated) mean array with shape (C)
      * @param var       (estimated) var array with shape (C)
      * @param weight    a.k.a. scale with shape (C)
@@ -33,13 +33,8 @@ namespace nmtools::view
     template <typename input_t, typename mean_t, typename var_t, typename weight_t, typename bias_t, typename epsilon_t=float>
     constexpr auto batch_norm(const input_t& input, const mean_t& mean, const var_t& var, const weight_t& weight, const bias_t& bias, epsilon_t eps=epsilon_t{1e-5})
     {
-        // assume only 2D for now
-        // TODO: support 1D & 3D
-        // assume NCHW or CHW
+        // assume channel axis is 1: (N,C), (N,C,L), (N,C,H,W), ...
         // TODO: support NHWC
-
-        auto src_axis = meta::ct_v<-1>;
-        auto dst_axis = meta::ct_v<-3>;
 
         auto aliased  = view::aliased(input,mean,var,weight,bias);
         // TODO: propagate error handling, aliased may return maybe<tuple<...>> if any of its input is maybe
@@ -49,10 +44,24 @@ namespace nmtools::view
         auto a_weight = nmtools::get<3>(unwrap(aliased));
         auto a_bias   = nmtools::get<4>(unwrap(aliased));
 
-        auto weight_ = view::moveaxis(view::atleast_nd(a_weight,meta::ct_v<3>),src_axis,dst_axis);
-        auto bias_   = view::moveaxis(view::atleast_nd(a_bias,meta::ct_v<3>),src_axis,dst_axis);
-        auto mean_   = view::moveaxis(view::atleast_nd(a_mean,meta::ct_v<3>),src_axis,dst_axis);
-        auto var_    = view::moveaxis(view::atleast_nd(a_var,meta::ct_v<3>),src_axis,dst_axis);
+        // the per-channel parameters (C) are viewed as (C,1,...,1) with dim(input)-1 axes,
+        // which broadcasts against axis 1 of the input for any input dim: (C) for (N,C), (C,1) for (N,C,L), (C,1,1) for (N,C,H,W)
+        auto src_dim = dim<true>(a_input);
+        auto nd = [&](){
+            if constexpr (meta::is_constant_index_v<decltype(src_dim)>) {
+                constexpr auto DIM = decltype(src_dim)::value;
+                return meta::ct_v<(DIM > 1 ? (nm_size_t)DIM-1 : (nm_size_t)1)>;
+            } else {
+                return ((nm_size_t)src_dim > 1 ? (nm_size_t)src_dim-1 : (nm_size_t)1);
+            }
+        }();
+        auto src_axis = meta::ct_v<-1>;
+        auto dst_axis = meta::ct_v<0>;
+
+        auto weight_ = view::moveaxis(view::atleast_nd(a_weight,nd),src_axis,dst_axis);
+        auto bias_   = view::moveaxis(view::atleast_nd(a_bias,nd),src_axis,dst_axis);
+        auto mean_   = view::moveaxis(view::atleast_nd(a_mean,nd),src_axis,dst_axis);
+        auto var_    = view::moveaxis(view::atleast_nd(a_var,nd),src_axis,dst_axis);
         auto stddev_ = view::sqrt(view::add(var_,eps));
 
         auto subtracted = view::subtract(a_input,mean_);
